@@ -1,6 +1,8 @@
-(* C19 - property theorems (statements only; proofs live in RefTest/*Proofs.v). *)
+(* C19 - tagged runs execute exactly the tagged tests; listing runs none.
+   Statements only; every proof is `exact <lemma>` from RefTest/*Proofs.v. *)
 From Coq Require Import ZArith List Bool.
-From Tdda Require Import Base.Sexp Base.Str Generated.Consts RefTest.Argv RefTest.Tagged.
+From Tdda Require Import Base.Sexp Base.Str Base.Sort Generated.Consts
+  RefTest.Argv RefTest.ArgvProofs RefTest.Tagged RefTest.TaggedProofs.
 Import ListNotations.
 Open Scope Z_scope.
 
@@ -11,3 +13,72 @@ Theorem C19_flag_spellings :
   argv_check_options = [[45;48]; [45;45;105;115;116;97;103;103;101;100]].
 Proof. repeat split; reflexivity. Qed.
 Print Assumptions C19_flag_spellings.
+
+(* The scanner removes exactly the tdda flags (order of everything else preserved) and
+   reports tagged/check/regenerate/quiet, for every command line in the domain. *)
+Theorem C19_strip_spec : forall prog rest,
+  in_domain prog rest = true ->
+  set_flags (prog :: rest) = Some (spec_result prog rest).
+Proof. exact strip_spec_proof. Qed.
+Print Assumptions C19_strip_spec.
+
+(* The whole run = scanner composed with the (tag-filtering) loader. *)
+Theorem C19_run_spec : forall rs prog rest,
+  in_domain prog rest = true ->
+  forallb (fun f => mem_str f unittest_flags) (filter is_dash_arg (run_args prog rest)) = true ->
+  names_contiguous (run_args prog rest) = true ->
+  run_module rs (prog :: rest) =
+  select (ar_tagged (spec_result prog rest)) (ar_check (spec_result prog rest))
+    (match filter (fun a => negb (is_dash_arg a)) (run_args prog rest) with
+     | [] => isort class_leb (resolve rs)
+     | names => lookup_names names (resolve rs)
+     end).
+Proof. exact run_spec_proof. Qed.
+Print Assumptions C19_run_spec.
+
+(* Under the tagged option the executed tests are exactly those carrying the tag
+   themselves or through their class ... *)
+Theorem C19_tagged_selection_exact : forall cs cn n,
+  In (cn, n) (selected_cases true false cs) <->
+  exists c m, In c cs /\ tc_name c = cn /\ In m (tc_methods c) /\ fst m = n /\ eff_tagged c m = true.
+Proof. exact tagged_selection_exact_proof. Qed.
+Print Assumptions C19_tagged_selection_exact.
+
+(* ... each once *)
+Theorem C19_tagged_selection_once : forall cs,
+  NoDup (map tc_name cs) ->
+  (forall c, In c cs -> NoDup (map fst (tc_methods c))) ->
+  NoDup (selected_cases true false cs).
+Proof. exact tagged_selection_once_proof. Qed.
+Print Assumptions C19_tagged_selection_once.
+
+(* without the option every test runs *)
+Theorem C19_untagged_runs_all : forall cs,
+  select false false cs =
+  Ran (flat_map (fun c => map (fun m => (tc_name c, fst m)) (tc_methods c)) cs) [].
+Proof. exact untagged_runs_all_proof. Qed.
+Print Assumptions C19_untagged_runs_all.
+
+(* list-tagged: no test executes; exactly the classes containing tagged tests are named *)
+Theorem C19_list_runs_none : forall t cs,
+  selected_cases t true cs = [] /\
+  forall cn, In cn (listed_classes t true cs) <->
+             exists c, In c cs /\ tc_name c = cn /\
+                       exists m, In m (tc_methods c) /\ eff_tagged c m = true.
+Proof. exact list_runs_none_proof. Qed.
+Print Assumptions C19_list_runs_none.
+
+(* non-vacuity: a concrete command line meets the hypotheses and gives the expected run.
+   prog -v1 TA --tagged  on  class TA: test_a (tagged), test_b;  class TB: test_c *)
+Example C19_domain_inhabited :
+  let prog := [112] in
+  let rest := [[45;118;49]; [84;65]; [45;45;116;97;103;103;101;100]] in
+  let rs := [ {| rc_name := [84;65]; rc_base := None; rc_tagged := false;
+                 rc_methods := [([116;95;98], false); ([116;95;97], true)] |};
+              {| rc_name := [84;66]; rc_base := None; rc_tagged := false;
+                 rc_methods := [([116;95;99], false)] |} ] in
+  in_domain prog rest = true /\
+  forallb (fun f => mem_str f unittest_flags) (filter is_dash_arg (run_args prog rest)) = true /\
+  names_contiguous (run_args prog rest) = true /\
+  run_module rs (prog :: rest) = Ran [([84;65], [116;95;97])] [].
+Proof. vm_compute. repeat split; reflexivity. Qed.
